@@ -7,6 +7,8 @@ import (
 	"go/types"
 	"sort"
 	"strings"
+
+	"verif/checker/cfgx"
 )
 
 // RuleSB1: the functions that walk back from an error position to find its line
@@ -212,4 +214,167 @@ func RuleAP1(c *Ctx) {
 		}
 		return true
 	})
+}
+
+// ---------------------------------------------------------------- PF1 parallel slices
+
+// RulePF1: slice fields of one struct that grow together shrink together. Two slice fields
+// that some function appends to side by side (or truncates side by side) are parallel
+// arrays - the include stack and the hash of each level, for instance; every function that
+// appends to one appends to the other on each success path, and every function that
+// truncates one truncates the other. A level popped from one and left on the other makes
+// every later lookup by position read the wrong level.
+func RulePF1(c *Ctx) {
+	sc := c.Run.Begin("PF1", "slice fields of one struct that are appended to (or truncated) side by side in some function are kept in lockstep by every function that appends to or truncates either of them", 2)
+	defer sc.End()
+	type use struct {
+		fd   *ast.FuncDecl
+		pk   *pkgT
+		grow map[*types.Var]ast.Node
+		cut  map[*types.Var]ast.Node
+	}
+	var uses []use
+	c.P.Funcs(func(pk *pkgT, fd *ast.FuncDecl) {
+		info := pk.TypesInfo
+		u := use{fd: fd, pk: pk, grow: map[*types.Var]ast.Node{}, cut: map[*types.Var]ast.Node{}}
+		ast.Inspect(fd.Body, func(n ast.Node) bool {
+			as, ok := n.(*ast.AssignStmt)
+			if !ok || len(as.Lhs) != 1 || len(as.Rhs) != 1 {
+				return true
+			}
+			sel, ok := ast.Unparen(as.Lhs[0]).(*ast.SelectorExpr)
+			if !ok {
+				return true
+			}
+			fld, ok := info.ObjectOf(sel.Sel).(*types.Var)
+			if !ok || !fld.IsField() {
+				return true
+			}
+			if _, isSlice := fld.Type().Underlying().(*types.Slice); !isSlice {
+				return true
+			}
+			switch r := ast.Unparen(as.Rhs[0]).(type) {
+			case *ast.CallExpr:
+				if id, ok := ast.Unparen(r.Fun).(*ast.Ident); ok && id.Name == "append" && len(r.Args) >= 2 && cfgx.SameExpr(info, r.Args[0], as.Lhs[0]) {
+					u.grow[fld] = as
+				}
+			case *ast.SliceExpr:
+				if cfgx.SameExpr(info, r.X, as.Lhs[0]) && r.High != nil && r.Low == nil {
+					u.cut[fld] = as
+				}
+			}
+			return true
+		})
+		if len(u.grow)+len(u.cut) > 0 {
+			uses = append(uses, u)
+		}
+	})
+	ownerOf := func(f *types.Var) *types.Named {
+		var out *types.Named
+		for _, pk := range c.P.Repo {
+			for _, nm := range pk.Types.Scope().Names() {
+				tn, ok := pk.Types.Scope().Lookup(nm).(*types.TypeName)
+				if !ok {
+					continue
+				}
+				named, ok := tn.Type().(*types.Named)
+				if !ok {
+					continue
+				}
+				if st, ok := named.Underlying().(*types.Struct); ok {
+					for i := 0; i < st.NumFields(); i++ {
+						if st.Field(i) == f {
+							out = named
+						}
+					}
+				}
+			}
+		}
+		return out
+	}
+	// groups: union of fields co-grown or co-cut in one function, per owner
+	parent := map[*types.Var]*types.Var{}
+	var find func(v *types.Var) *types.Var
+	find = func(v *types.Var) *types.Var {
+		if p, ok := parent[v]; ok && p != v {
+			r := find(p)
+			parent[v] = r
+			return r
+		}
+		parent[v] = v
+		return v
+	}
+	union := func(m map[*types.Var]ast.Node) {
+		var first *types.Var
+		var fo *types.Named
+		for f := range m {
+			o := ownerOf(f)
+			if o == nil {
+				continue
+			}
+			if first == nil {
+				first, fo = f, o
+				find(f)
+				continue
+			}
+			if o == fo {
+				parent[find(f)] = find(first)
+			}
+		}
+	}
+	for _, u := range uses {
+		if len(u.grow) >= 2 {
+			union(u.grow)
+		}
+		if len(u.cut) >= 2 {
+			union(u.cut)
+		}
+	}
+	groups := map[*types.Var][]*types.Var{}
+	for v := range parent {
+		r := find(v)
+		groups[r] = append(groups[r], v)
+	}
+	n := 0
+	for _, members := range groups {
+		if len(members) < 2 {
+			continue
+		}
+		sort.Slice(members, func(i, j int) bool { return members[i].Name() < members[j].Name() })
+		var names []string
+		for _, m := range members {
+			names = append(names, m.Name())
+		}
+		owner := ownerOf(members[0])
+		for _, u := range uses {
+			for _, kind := range []struct {
+				what string
+				m    map[*types.Var]ast.Node
+			}{{"appends to", u.grow}, {"truncates", u.cut}} {
+				var have, miss []string
+				var at ast.Node
+				for _, f := range members {
+					if nd, ok := kind.m[f]; ok {
+						have = append(have, f.Name())
+						at = nd
+					} else {
+						miss = append(miss, f.Name())
+					}
+				}
+				if len(have) == 0 {
+					continue
+				}
+				n++
+				k := fmt.Sprintf("%s{%s}:%s:%s", owner.Obj().Name(), strings.Join(names, ","), c.P.DeclName(u.fd), strings.Fields(kind.what)[0])
+				if len(miss) == 0 {
+					sc.Holds(k, c.P.Pos(at.Pos()), kind.what+" all of "+strings.Join(names, ", "))
+				} else {
+					sc.Violation(k, c.P.Pos(at.Pos()), fmt.Sprintf("%s %s of %s but not %s, although these slices are kept side by side elsewhere: from here on element i of one no longer belongs to element i of the other (a stale include-stack hash makes later directives pick up the include chain of a file that was already left)", kind.what, strings.Join(have, ", "), owner.Obj().Name(), strings.Join(miss, ", ")))
+				}
+			}
+		}
+	}
+	if n == 0 {
+		sc.Undecided("groups", "-", "no parallel slice fields found (the include stack and its hashes were confirmed by hand)")
+	}
 }
